@@ -107,7 +107,9 @@ def write_sites(repo: Path) -> list[str]:
                 f = n.func
                 name = f.id if isinstance(f, ast.Name) else f.attr if isinstance(f, ast.Attribute) else ""
                 if name in WRITE_NAMES:
-                    sites.append(f"{rel}:{name}")
+                    # what is written to is part of the site: the receiver of a method, else the first argument
+                    tgt = ast.unparse(f.value) if isinstance(f, ast.Attribute) else (ast.unparse(n.args[0]) if n.args else "")
+                    sites.append(f"{rel}:{name}@{tgt}")
                 if name == "open" and (len(n.args) > 1 or any(k.arg == "mode" for k in n.keywords)):
                     sites.append(f"{rel}:open-with-mode")
     return sorted(sites)
@@ -175,7 +177,9 @@ def run(ctx: Ctx) -> None:
         (tree / "deep.py").write_text("x = " + "[" * 80 + "]" * 80 + "\n")
         (tree / "badplugin.py").write_text("from dataclasses import dataclass\nfrom refurb.error import Error\n@dataclass\nclass ErrorInfo(Error):\n    code = 900\n    prefix = 'ZZZ'\n    msg: str = 'm'\ndef check(a, b, c, d):\n    pass\n")
         (tree / "readonly.txt").write_text("keep me\n")
-        scen = [("clean", ["clean.py"]), ("diagnostics", ["diag.py", "pkg"]), ("missing-file", ["nope.py"]), ("syntax-error", ["syntax.py", "diag.py"]),
+        (tree / "conf").mkdir()
+        (tree / "conf" / "refurb.toml").write_text("[tool.refurb]\nenable_all = true\n")
+        scen = [("config-elsewhere", ["diag.py", "--config-file", "conf/refurb.toml"]), ("clean", ["clean.py"]), ("diagnostics", ["diag.py", "pkg"]), ("missing-file", ["nope.py"]), ("syntax-error", ["syntax.py", "diag.py"]),
                 ("empty-dir", ["emptydir"]), ("invalid-plugin", ["diag.py", "--load", "badplugin"]), ("unimportable-plugin", ["diag.py", "--load", "no_such_plugin_mod"]),
                 ("deep", ["deep.py"]), ("github-format", ["diag.py", "--format", "github"]), ("explain", ["--explain", "FURB123"]), ("verbose", ["clean.py", "--verbose", "--enable-all"])]
         for name, args in scen:
@@ -207,7 +211,7 @@ def run(ctx: Ctx) -> None:
                     if not ok:
                         ctx.report(f"stats-malformed:{name}", f"--timing-stats file of scenario {name}: {why}", {"argv": argv, "content": stats.read_text()[:500]})
                     stats.unlink()
-                elif timing and name in ("clean", "diagnostics", "deep", "github-format", "verbose"):
+                elif timing and name in ("clean", "diagnostics", "deep", "github-format", "verbose", "config-elsewhere"):
                     ctx.report(f"stats-missing:{name}", f"--timing-stats file was not written in scenario {name}", {"argv": argv, "stdout": out[-300:]})
     finally:
         shutil.rmtree(td, ignore_errors=True)
